@@ -289,6 +289,9 @@ def run_group(low, g, tier, keep=False, cell=None):
     if err == "TIMEOUT":
         res.update(status="UNDECIDED", reason="cbmc timeout after %ds" % timeout)
         return res
+    if rc not in (0, 10):
+        res.update(status="UNDECIDED", reason="cbmc ended abnormally (exit code %d: out of memory / solver error): %s" % (rc, (err or out)[-300:].replace("\n", " ")))
+        return res
     try:
         js = json.loads(out)
     except Exception:
@@ -476,6 +479,31 @@ def native_replay(low, g, ob, gdir, cdefs=()):
     return info
 
 
+def coexec(low, g, r, n, seed):
+    """co-execution (DESIGN 4.4): the harness, compiled natively and linked against the REAL g++ object code of the driver, is run on
+    n seeded random inputs; every run whose assumptions hold must satisfy the assertions CBMC proved on the lowered C."""
+    if g.mode == "contract" or g.attrs.get("coexec", "1") == "0":
+        return None
+    gdir = r["gdir"]
+    names = scan_input_names(low, gdir, r.get("cdefs", ()))
+    exe, why = native_build(low, g, gdir, inputs_header(names, {}), cdefs=r.get("cdefs", ()))
+    if not exe:
+        return {"status": "nobuild", "why": why[-300:]}
+    env = dict(os.environ, ASAN_OPTIONS="detect_leaks=0:abort_on_error=0:allocator_may_return_null=1", UBSAN_OPTIONS="print_stacktrace=0")
+    rc, out, err, dt = sh([exe, "fuzz", str(n), str(seed)], cwd=gdir, timeout=120, mem=False, env=env)
+    m = re.search(r"FUZZ-END runs=(\d+) effective=(\d+) failed=(\d+)", out)
+    res = {"status": "ok", "runs": 0, "effective": 0, "seconds": round(dt, 2)}
+    if m:
+        res.update(runs=int(m.group(1)), effective=int(m.group(2)))
+        if m.group(3) != "0":
+            res.update(status="mismatch", why=(out + err)[-600:])
+    elif "AddressSanitizer" in err or "runtime error" in err:
+        res.update(status="mismatch", why=err[-800:])
+    else:
+        res.update(status="norun", why=(out + err)[-300:])
+    return res
+
+
 # ------------------------------------------------------------------ the check of one property
 def select(fams, prop, tier, only_group=None, only_family=None):
     sel = []
@@ -486,6 +514,16 @@ def select(fams, prop, tier, only_group=None, only_family=None):
         if gs:
             sel.append((f, gs))
     return sel
+
+
+def coexec_wanted(tier, seed, low, g):
+    mode = os.environ.get("VF_COEXEC", "all")
+    if mode == "all":
+        return True
+    if mode == "none":
+        return False
+    h = int(hashlib.sha1(("%d/%s/%s" % (seed, low.tag, g.name)).encode()).hexdigest(), 16)
+    return h % 4 == 0
 
 
 def when_ok(g, variant):
@@ -568,6 +606,14 @@ def check_property(prop, tier, seed, keep=False, only_group=None, only_family=No
                     r = {"group": g.name, "family": low.tag, "kind": g.kind, "mode": g.mode, "props": g.props, "obligations": [], "status": "UNDECIDED", "reason": "engine error: %r" % e, "cmds": []}
                 r["probe"] = fid
                 r["_low"], r["_g"] = low, g
+                if r["status"] == "OK" and not fid and coexec_wanted(tier, seed, low, g):
+                    try:
+                        r["coexec"] = coexec(low, g, r, 300 if tier == "quick" else 3000, seed)
+                    except Exception as e:  # noqa
+                        r["coexec"] = {"status": "norun", "why": repr(e)}
+                    if r["coexec"] and r["coexec"]["status"] == "mismatch":
+                        r["status"] = "UNDECIDED"
+                        r["reason"] = "CO-EXECUTION MISMATCH: the real C++ object code violates an assertion that was proved on the lowered C (extractor or harness defect): " + r["coexec"].get("why", "")[-400:]
                 results.append(r)
                 if not quiet:
                     sys.stderr.write("  [%s] %s.%s%s: %s %d obligations %.1fs %s\n" % (prop, low.tag, g.name, " (probe %s)" % fid if fid else "", r["status"], len(r["obligations"]), r.get("wall_s", 0), r.get("reason", "")[:300]))
@@ -670,6 +716,10 @@ def write_evidence(prop, tier, seed, results, lowered, undecided, violations, kn
             funcs = [o for o in obs if "assertion" in o["id"] or "postcondition" in o["id"]] or obs
             o = funcs[0]
             samples.append({"obligation": o["id"], "clause": o["desc"], "status": o["status"], "location": o["loc"]})
+    cx = [r["coexec"] for r in main if r.get("coexec")]
+    coex = {"groups": len(cx), "runs": sum(c.get("runs", 0) for c in cx), "effective_runs": sum(c.get("effective", 0) for c in cx),
+            "mismatches": sum(1 for c in cx if c["status"] == "mismatch"), "not_runnable": sum(1 for c in cx if c["status"] in ("nobuild", "norun")),
+            "note": "harness compiled natively and linked against the REAL g++ object code of the driver, run on seeded random inputs (ASan+UBSan); effective = runs whose assumptions held"}
     checker = next((" && ".join(r["cmds"]) for r in main if r["cmds"]), "goto-cc && goto-instrument --dfcc && cbmc")
     checker = checker.replace(os.path.join(ROOT, ".work"), ".work")
     meta = P.PROPS.get(prop, {})
@@ -681,7 +731,7 @@ def write_evidence(prop, tier, seed, results, lowered, undecided, violations, kn
             "obligations": proved_obl, "discharged": proved_ok,
             "checker_cmd": checker[:3000], "trusted_base": TRUSTED_BASE + meta.get("trusted_extra", []),
             "bounded": {"checks": b_checks, "passed": b_ok, "note": "tier-B groups (input length / value window capped, see groups[].bound); never counted in obligations/discharged"},
-            "by_backend": by_backend, "by_tier_kind": by_kind,
+            "by_backend": by_backend, "by_tier_kind": by_kind, "co_execution": coex,
             "functions_under_enforced_contract": sorted(set(enforced)),
             "tetl_functions_lowered_and_checked": len(repo_fns),
             "tetl_functions_sample": repo_fns[:40],
